@@ -78,7 +78,7 @@ REPLAY_PREFIX = '<<"REPLAY", '
 
 
 def run_tlc(pid, module, cfg_text, tag=None, workers=None, simulate=None, env=None, timeout=3600,
-            deque=False, xss=False, heap="8g", coverage=True, replay_to=None, keep_out=True):
+            deque=False, xss=False, heap="8g", coverage=True, replay_to=None, keep_out=True, prefixes=None):
     """Runs TLC on spec/<module>.tla with a generated cfg. REPLAY lines are parsed (and streamed to
     replay_to if given). Raises ToolError on anything that is neither success nor a violation."""
     tag = tag or module
@@ -117,9 +117,10 @@ def run_tlc(pid, module, cfg_text, tag=None, workers=None, simulate=None, env=No
         try:
             keep = []
             for line in p.stdout:
-                if line.startswith(REPLAY_PREFIX):
+                pre = next((x for x in (prefixes or (REPLAY_PREFIX,)) if line.startswith(x)), None)
+                if pre:
                     try:
-                        js = json.loads(line.rstrip()[len(REPLAY_PREFIX):-2])
+                        js = json.loads(line.rstrip()[len(pre):-2])
                     except Exception:
                         raise ToolError("garbled REPLAY line from TLC: " + line[:200])
                     nrep += 1
